@@ -418,6 +418,92 @@ def run_case(case: dict):
         shutil.rmtree(d, ignore_errors=True)
 
 
+def enum_big(tier):
+    yield {"big": True, "existing": 1500, "incoming": 30000}
+
+
+def run_big(case: dict):
+    """Crash of a transaction larger than SQLite's page cache: a child merges `incoming` hosts into a store of
+    `existing` pins and is killed at the last statement boundary (before COMMIT); the parent reopens the store."""
+    import json as _json
+
+    setup_logging()
+    _patch()
+    from nauyaca.security.tofu import TOFUDatabase
+
+    d = scratch.subdir("c12-big")
+    try:
+        dbpath = Path(d) / "tofu.db"
+        db = TOFUDatabase(dbpath)
+        conn = _real_connect(str(dbpath))
+        conn.executemany("INSERT INTO known_hosts VALUES (?,?,?,?,?)",
+                         [(f"old{i}.example", 1965, FPS[i % 3], "2019-01-01T00:00:00+00:00", "2019-01-01T00:00:00+00:00")
+                          for i in range(case["existing"])])
+        conn.commit()
+        conn.close()
+        before = read_table(dbpath)
+        lines = ["[_metadata]", 'version = "1.0"', ""]
+        for i in range(case["incoming"]):
+            h = f"host-{i:06d}-{'x' * 60}.example"
+            lines += [f'[hosts."{h}:1965"]', f'hostname = "{h}"', "port = 1965", f'fingerprint = "{FPS[i % 3]}"',
+                      'first_seen = "2020-01-01T00:00:00+00:00"', 'last_seen = "2021-01-01T00:00:00+00:00"', ""]
+        f = Path(d) / "big.toml"
+        f.write_text("\n".join(lines))
+        # dry run in a child to learn K (number of statement boundaries), then kill at K (the commit)
+        results = {}
+        for phase in ("count", "kill"):
+            r, w = os.pipe()
+            pid = os.fork()
+            if pid == 0:
+                os.close(r)
+                try:
+                    target = db
+                    if phase == "count":
+                        shadow = Path(d) / "shadow.db"
+                        import shutil as _sh
+
+                        _sh.copy(dbpath, shadow)
+                        target = TOFUDatabase(shadow)
+                    _State.n, _State.kind, _State.count, _State.active = (results.get("K") if phase == "kill" else None), "crash", 0, True
+                    target.import_toml(f, merge=True)
+                    os.write(w, _json.dumps({"K": _State.count}).encode())
+                finally:
+                    os._exit(0)
+            os.close(w)
+            data = b""
+            while True:
+                ch = os.read(r, 65536)
+                if not ch:
+                    break
+                data += ch
+            os.close(r)
+            _, status = os.waitpid(pid, 0)
+            if phase == "count":
+                results.update(_json.loads(data.decode()))
+            else:
+                results["killed"] = os.WIFSIGNALED(status)
+        conn = _real_connect(str(dbpath))
+        try:
+            integ = conn.execute("PRAGMA integrity_check").fetchall()
+        finally:
+            conn.close()
+        after = read_table(dbpath)
+        info = {"K": results.get("K"), "killed": results.get("killed"), "before": len(before), "after": len(after),
+                "nonempty_fail": 1}
+        if not results.get("killed"):
+            return viol("harness-crash-point-not-reached", f"{results}", **info)
+        if integ != [("ok",)]:
+            return viol("store-corrupted-by-crash", f"integrity_check after a crash before COMMIT of a {case['incoming']}-host import: {integ[:2]}", **info)
+        if after != before:
+            return viol("store-neither-before-nor-after", f"crash before COMMIT of a {case['incoming']}-host merge: {len(before)} pins before, "
+                        f"{len(after)} after", kind="crash", **info)
+        return ok(**info)
+    finally:
+        import shutil
+
+        shutil.rmtree(d, ignore_errors=True)
+
+
 def enum_faults(tier):
     """Every statement boundary (error and crash) of a fixed set of operation instances."""
     store = [["example.org", 1965, FPS[0]], ["::1", 1965, FPS[1]], ['quo"te', 300, FPS[2]]]
@@ -469,6 +555,10 @@ def _bucket(case, v):
 
 
 LANES = [
+    Lane(name="big-transaction-crash", run_case=run_big, enumerate=enum_big, budget={"quick": 1, "thorough": 1},
+         shards={"quick": 1, "thorough": 1}, nontrivial=lambda c, v: True, labels=lambda c, v: ["big"], exhaustive=True,
+         rule="one import larger than SQLite's page cache (30000 hosts into a 1500-pin store) killed at the statement "
+              "boundary before COMMIT; reopened table must equal the previous one and pass PRAGMA integrity_check"),
     Lane(name="statement-boundaries", run_case=run_case, enumerate=enum_faults, budget={"quick": 1, "thorough": 1},
          shards={"quick": 16, "thorough": 32}, nontrivial=_nontrivial, labels=_labels, bucket=_bucket, exhaustive=True,
          rule="every SQL statement boundary (injected OperationalError and SIGKILL of a forked child) of 9 (quick) / 105 "
